@@ -120,6 +120,29 @@ theorem own_start_message_refused_restored (S : GroupSpec G) {P : Params G} (hP 
   rw [f]
   exact own_start_message_refused S hP h k
 
+
+/-! ### C08 helpers -/
+
+/-- C08 for a session produced by `start()` whose `serialize()` returned `s` -/
+theorem restore_transparent_started (S : GroupSpec G) {P : Params G} (hP : ValidParams S P)
+    {side : Side} {pw idA idB : Bytes} (hpw : IsBytes pw) (hidA : IsBytes idA) (hidB : IsBytes idB)
+    {ent : Entropy} {a : Inst G} {m s : Bytes}
+    (hst : (Inst.new side pw idA idB P ent).start = (a, .ok m)) (hs : a.serialize = .ok s) :
+    (∀ c ∈ s, 0x20 ≤ c ∧ c ≤ 0x7e) ∧
+    ∃ a', fromSerialized side s P = .ok a' ∧ SameSession a a' ∧ a'.serialize = .ok s ∧
+      (∀ msg, (a'.finish msg).2 = (a.finish msg).2) ∧
+      ∀ a'', RestoredFrom a a'' →
+        a''.serialize = .ok s ∧ ∀ msg, (a''.finish msg).2 = (a.finish msg).2 := by
+  obtain ⟨x, ob, -, rd, sa, pa, ia, ja, qa, -⟩ := start_ready S hP hst
+  have bA : IsBytes a.idA := ia ▸ hidA
+  have bB : IsBytes a.idB := ja ▸ hidB
+  have bp : IsBytes a.pw := pa ▸ hpw
+  obtain ⟨a', hr, hss, -, -, -, -, hs', hf⟩ := restore_transparent S rd bA bB bp hs
+  rw [sa, qa] at hr
+  refine ⟨(serialize_printable S rd bA bB bp hs).1, a', hr, hss, hs', hf, fun a'' hr'' => ?_⟩
+  obtain ⟨-, f, e⟩ := hr''.finish_eq S rd bA bB bp
+  exact ⟨e.trans hs, f⟩
+
 /-! ### the toy group `IntegerGroup(23, 11, 2)` -/
 
 def toyP : IntGroupParams := ⟨23, 11, 2⟩
